@@ -130,3 +130,61 @@ Definition c04_class (c : cfg) (es : list ev) (os : list obs) : N :=
     else 0%N.
 
 Definition c04_ok (c : cfg) (es : list ev) (os : list obs) : bool := N.eqb (c04_class c es os) 0.
+
+(* ---- "concurrent transfers with different tokens never mix" ----
+   A body that is wrong for the token it is delivered under (class 1) is classified further
+   from what the applications SUPPLIED in the scenario, each body under its own token:
+   8  the delivered body is, byte for byte, a body that was supplied under ANOTHER token
+      (body delivered under another token);
+   9  the delivered body is the beginning of a body supplied under one token followed by the
+      rest of a body supplied under a different token, cut at a multiple of 16 bytes - the
+      smallest block size - (blocks of transfers with distinct tokens spliced together).
+   Both say that two transfers with distinct tokens interfered.  Tokens are compared as whole
+   values: two tokens that differ in any byte or in their length are distinct.  Everything else
+   stays class 1. *)
+
+(* the bodies supplied towards [side] (1: request bodies A supplies to B's application; else: the
+   representations B's application supplies, every version the scenario reaches), with their tokens *)
+Definition supplied_to (c : cfg) (es : list ev) (side : Z) : list (Z * list Z) :=
+  if side =? 1 then
+    map (fun x => (xtok x, gen_body (xsalt x) (Z.to_nat (xlen x)))) (filter (fun x => xkind x <? 2) (cexch c))
+  else
+    flat_map (fun x => match nth_error (cres c) (Z.to_nat (xpath x)) with
+                       | Some r => map (fun v => (xtok x, res_body r (Z.of_nat v)))
+                                       (seq 0 (S (Z.to_nat (bumps es (xpath x)))))
+                       | None => []
+                       end) (cexch c).
+
+Definition whole_of_other (sup : list (Z * list Z)) (d : pm) : bool :=
+  existsb (fun p => negb (fst p =? ptok d) && (plen d =? blen (snd p)) && (psum d =? csum (snd p))) sup.
+
+(* cut positions 16, 32, ... below n *)
+Fixpoint cuts (fuel : nat) (k n : Z) : list Z :=
+  match fuel with
+  | O => []
+  | S f => if k <? n then k :: cuts f (k + 16) n else []
+  end.
+
+Definition splice_of_two (sup : list (Z * list Z)) (d : pm) : bool :=
+  existsb (fun p1 =>
+    existsb (fun p2 =>
+      negb (fst p1 =? fst p2) && (plen d =? blen (snd p2)) &&
+      existsb (fun k => psum d =? csum (firstn (Z.to_nat k) (snd p1) ++ skipn (Z.to_nat k) (snd p2)))
+              (cuts (length (snd p1)) 16 (Z.min (blen (snd p1)) (blen (snd p2))))) sup) sup.
+
+(* 0 unless the delivery is class 1; then 8, 9 or 0 (no finer classification) *)
+Definition mix_class (c : cfg) (es : list ev) (side : Z) (d : pm) : N :=
+  if N.eqb (delivery_class c es side d) 1 then
+    if 0 <? plen d then
+      let sup := supplied_to c es side in
+      if whole_of_other sup d then 8%N else if splice_of_two sup d then 9%N else 0%N
+    else 0%N
+  else 0%N.
+
+(* the whole property with class 1 refined; c04_class_x = 0 exactly when c04_class = 0 *)
+Definition c04_class_x (c : cfg) (es : list ev) (os : list obs) : N :=
+  let k := c04_class c es os in
+  if N.eqb k 1 then
+    let m := first_class (flat_map (fun o => map (mix_class c es (o_side o)) (o_deliv o)) os) in
+    if N.eqb m 0 then 1%N else m
+  else k.
